@@ -22,17 +22,17 @@ CHECKS = {
 
 CHECKS.update({
     "C03": dict(
-        technique="static analysis: computed erasable-ADT set (type-graph reachability) + who-may-read rule over every MIR place projection + match-arm emptiness + token-kind set agreement in the parser (per-kind path following through chained tests and boolean kind-set helpers, Eof as the rejecting probe)",
+        technique="static analysis: computed erasable-ADT set (type-graph reachability) + who-may-read rule over every MIR place projection + match-arm emptiness + token-kind set agreement in the parser (per-kind path following through chained tests and boolean kind-set helpers, Eof as the rejecting probe); consumption-behind-look-ahead rule for modifier words (path-sensitive in boolean temporaries, wrappers and fn-pointer look-aheads judged at call sites), enum-variant coverage of the keyword-type enum",
         text="Decides the back-end clause of erasure exactly: outside the parser/AST no function of the crate reads a type-syntax "
              "node or a type slot (whole-slot transport excepted), and arms selecting type-only statements do no work, so emitted "
              "bytecode is a function of the AST minus annotations. Zero reads on the current tree, with a positive control. "
              "Of the front-end clause it decides one finite part: the contextual-keyword token kinds that parse_identifier accepts "
              "as names are names at every name site, start-set test and gate in front of a name acceptor (15 rejected-name sites "
              "of the pinned tree reproduced as SyntaxErrors and repaired, fix: commits). It does not decide that the grammar as a "
-             "whole yields the same non-type AST with and without annotations.",
+             "whole yields the same non-type AST with and without annotations. Also: modifier words are consumed in front of a member / parameter name only behind a one-token look-ahead; every keyword type variant is constructed by the type parser.",
         ref="4/C03"),
     "C15": dict(
-        technique="static analysis: match-arm regions of the opcode interpreter + who-may-cast rule + def-chain (greatest fixed point) inside conversion helpers; value-origin rule for every f64 handed to Display/LowerExp in the number printers (field-sensitive through the format_args! tuple), who-may-format rules (one default printer; no tie-to-even precision formatting); positive-control fixtures",
+        technique="static analysis: match-arm regions of the opcode interpreter + who-may-cast rule + def-chain (greatest fixed point) inside conversion helpers; value-origin rule for every f64 handed to Display/LowerExp in the number printers (field-sensitive through the format_args! tuple), who-may-format rules (one default printer; no tie-to-even precision formatting); positive-control fixtures; flow rule from fixed-width integer parsers / integer accumulators to script numbers; format-template inspection (bytes of format_args! templates, plain placeholder learnt from a fixture)",
         text="Decides six structural clauses, not the printed or parsed values: no saturating float->int cast in any bitwise/shift operator arm, and "
              "every ToInt32/ToUint32 helper reduces modulo (f64 %) before casting; numeric literals and strings become doubles only through the "
              "correctly rounded parser; every f64 that the number printers hand to `{}`/`{:e}` is the number itself, never a quotient, power or "
@@ -40,7 +40,7 @@ CHECKS.update({
              "implementation; precision formatting (`{:.N}`, ties to even) is not used where ECMAScript picks the larger candidate (toFixed, "
              "toPrecision, toExponential do: known findings). The defects found on the pinned tree - saturating casts, 'infe-324' for 5e-324 and wrong "
              "digits above 1e21, (1e21).toString() without exponent - were reproduced and repaired (fix: commits). Radix output and the constants of the "
-             "notation thresholds are not decided.",
+             "notation thresholds are not decided. Also: no script number comes out of a 64-bit parse or an integer accumulator; constant-precision formatting is seen through the template bytes; the one-printer rule covers the whole interpreter (console output included).",
         ref="4/C15"),
 })
 
@@ -79,23 +79,23 @@ CHECKS.update({
 
 CHECKS.update({
     "C01": dict(
-        technique="static analysis: sibling agreement of frame pop sites, match-arm call-graph reachability for coercions, emit/handle pairing between compiler and VM, type walk of the property container, opcode table coverage, operand-role signatures of sibling arms, in-place copy direction test, placeholder-container coverage at context pop, receiver-protocol agreement of direction siblings, loop-scoped emission rule for switch tests, must-pass-through (loop-header waypoint) for per-iteration copies, value-origin rule for register numbers, who-may-call for unstable sorts, units check (bytes vs characters) over value origins in string natives, lastIndex sibling rule",
-        text="Decides fifteen structural necessary conditions of conformance (not the value of any operator): trampoline frame pop "
+        technique="static analysis: sibling agreement of frame pop sites, match-arm call-graph reachability for coercions, emit/handle pairing between compiler and VM, type walk of the property container, opcode table coverage, operand-role signatures of sibling arms, in-place copy direction test, placeholder-container coverage at context pop, receiver-protocol agreement of direction siblings, loop-scoped emission rule for switch tests, must-pass-through (loop-header waypoint) for per-iteration copies, value-origin rule for register numbers, who-may-call for unstable sorts, units check (bytes vs characters) over value origins in string natives, lastIndex sibling rule; emission dominance in the class-body compiler, text-keyed map hit behind an identity test, sibling comparison of parameter-list compilers, use of a flag component of a tuple result, use of every parsed expression",
+        text="Decides twenty-two structural necessary conditions of conformance (not the value of any operator): trampoline frame pop "
              "sites restore the same VM fields; operator arms convert register operands through the hook-aware coercion; "
              "break/continue/return pop block scopes on exactly one side; the own-property container is insertion ordered; "
              "every opcode is emitted, handled and (for jumps) patched, and no pending jump placeholder is dropped with its context; plain/computed sibling arms agree on operand roles; a hand-written "
              "copy inside one vector is dominated by a direction test; natives that differ only in direction read the receiver alike; the default clause of a switch is jumped to only after all case tests; "
              "for(let) copies the loop variables back on every path to the back jump; the VM addresses registers only through operands; script values are sorted stably; "
              "string natives never mix UTF-8 byte quantities with character positions; RegExp natives that run the matcher keep lastIndex. Today's deviations are genuine and listed with failing "
-             "programs; the frame-restore defect was repaired (fix: commit).",
+             "programs; the frame-restore defect was repaired (fix: commit). Further clauses: static class elements run after the class binding and the private methods and in source order; the constant pool shares a string slot by identity; all compilers of a parameter list bind every kind of parameter and record the rest parameter; the packed-arguments flag of compile_arguments is used by every caller; a parser that builds a node keeps every expression it parses.",
         ref="4/C01"),
     "C08": dict(
-        technique="static analysis: operand provenance + dominance templates on StepResult constructions, who-may-write table and operation-kind table for the ledger, must-pass-through in step(), per-variant sibling comparison of the result mappers",
+        technique="static analysis: operand provenance + dominance templates on StepResult constructions, who-may-write table and operation-kind table for the ledger, must-pass-through in step(), per-variant sibling comparison of the result mappers; index-domain rule shared with C07",
         text="Decides the ledger-discipline clauses exactly: every Suspended result moves the pending/cancelled ledgers out with "
              "mem::take (or is built where the ledger is known empty), Complete is built only on the nothing-outstanding edges, "
              "order ids are fresh, only designated functions touch the ledger and delivered responses are consumed by key, step() re-checks settled promises before taking "
              "a ready context, and the two result mappers agree per VmResult variant. Protocol-history clauses (progress, "
-             "combinator settlement) are not decided.",
+             "combinator settlement) are not decided. Also: the index a race settler carries ranges over the collection that sized the order-id vector.",
         ref="4/C08"),
     "C19": dict(
         technique="static analysis: sibling comparison of transitive effect signatures (field writes, ledger takes, constructions) on corresponding CFG fragments: match arms of shared enums, dominating regions; exit-path search from the non-empty edge of the import test",
@@ -108,18 +108,18 @@ CHECKS.update({
 
 CHECKS.update({
     "C13": dict(
-        technique="static analysis: unsafe-operation inventory of src/gc.rs; each obligation discharged by a dominance / value-range / caller-argument / who-may-call / quotient-flow rule over MIR",
+        technique="static analysis: unsafe-operation inventory of src/gc.rs; each obligation discharged by a dominance / value-range / caller-argument / who-may-call / quotient-flow rule over MIR; clear-before-pool rule for recycled root buffers",
         text="Turns every unsafe operation and ordering assumption of the collector into an obligation and discharges it "
              "structurally: handle dereferences dominated by Weak::upgrade, bitmap indices provably in range (with "
              "CHUNK_CAPACITY tied to the bitmap width), raw chunk-pointer offsets bound-checked, chunks never reallocating, "
              "sweep only after mark, pooled slots never rooted, no truncated quotient bounding a word counter, recycled root buffers enter the guard pool empty. Four obligations fail on today's tree (borrow after heap drop, "
-             "missing handle identity check); both are genuine, reproduced and listed. It does not decide that live == reachable.",
+             "missing handle identity check); both are genuine, reproduced and listed. It does not decide that live == reachable. ",
         ref="4/C13"),
 })
 
 CHECKS.update({
     "C02": dict(
-        technique="static analysis: type-directed trace coverage (every branch of the tracer is a shape test), capture/restore re-rooting symmetry, who-may-write table for the register file, and guardflow - a forward may-analysis of guard protection (DNF protector sets) with backward liveness over MIR, interprocedural may-collect sets, seeded with fresh values and with values moved out of mutably borrowed heap state (detaching-function summaries)",
+        technique="static analysis: type-directed trace coverage (every branch of the tracer is a shape test), capture/restore re-rooting symmetry, who-may-write table for the register file, and guardflow - a forward may-analysis of guard protection (DNF protector sets) with backward liveness over MIR, interprocedural may-collect sets, seeded with fresh values and with values moved out of mutably borrowed heap state (detaching-function summaries); accumulator rule (a local Vec<JsValue> filled across may-collect calls in a loop is guarded) and own-guard rooting of register files taken from saved state",
         text="Decides three rooting clauses for every function: Traceable::trace visits every Gc-bearing field path reachable from "
              "JsObject (71 obligations; dead types and one side-conditioned exemption aside) and never conditions a visit on plain data; only set_reg and the frame swaps write "
              "the register file; and no FRESH value (from a callee-returned Guarded or a local-guard allocation) is without a "
@@ -127,30 +127,30 @@ CHECKS.update({
              "state (mem::take / Option::take / pop / remove / drain applied behind a RefMut, or a local function that returns such a value). "
              "The ten guardflow hazards and the four detached-value hazards of the pinned tree (promise handlers, Promise.all results, splice) were "
              "reproduced as wrong results and repaired (fix: commits). Hazards needing a callback to unlink a heap-rooted object "
-             "are not decided.",
+             "are not decided. Also: values gathered in a local vector across calls that may collect are guarded; a rebuilt frame roots the register file it takes from saved state in its own guard.",
         ref="4/C02"),
 })
 
 CHECKS.update({
     "C11": dict(
-        technique="static analysis: install/restore provenance classification of writes to Interpreter.env and run-scoped scratch fields + path-sensitive exit-path search on the MIR CFG; dominance rules for the active-run hand-off in step()/prepare(); scope-entering helper summaries; Some-sensitive slot-restore search",
+        technique="static analysis: install/restore provenance classification of writes to Interpreter.env and run-scoped scratch fields + path-sensitive exit-path search on the MIR CFG; dominance rules for the active-run hand-off in step()/prepare(); scope-entering helper summaries; Some-sensitive slot-restore search; dominance of step()'s Err exits by the disposal of the run, coverage of the run-state slots by prepare()'s disposal test, run-scoped tables cleared by the disposer and at run start",
         text="Decides run-state restoration on all exits: every installation of a fresh current environment (and every take of a "
              "run-scoped scratch field) reaches each function exit, every `?` included, only through a restore or a hand-off of "
              "the saved value; step() restores on the error outcome; whoever empties the saved-environment slot restores it whenever "
              "it held a value; prepare() disposes of a still-active run. The nine "
              "violations of the pinned tree (all reproduced with observer programs) were repaired (fix: commit). Frames of a "
-             "run abandoned inside a call are not decided.",
+             "run abandoned inside a call are not decided. Also: every error step() returns for a resumed run passes abort/finalize; prepare() looks at every slot a stopped run can live in; the disposer empties exports, the parked continuation and the wait graph; eval()/prepare() start with an empty export table.",
         ref="4/C11"),
 })
 
 CHECKS.update({
     "C07": dict(
-        technique="static analysis: field-level taint from the running VM's fields into the aggregates built by save_state and from the saved state into the aggregates built by from_saved_state (closures included), against a reasoned exemption table; dominance of take_ready() by check_resolved_promises(); handler-registration coverage of PromiseStatus observers; capture/restore symmetry of re-rooting calls",
+        technique="static analysis: field-level taint from the running VM's fields into the aggregates built by save_state and from the saved state into the aggregates built by from_saved_state (closures included), against a reasoned exemption table; dominance of take_ready() by check_resolved_promises(); handler-registration coverage of PromiseStatus observers; capture/restore symmetry of re-rooting calls; who-calls rule for the frame-local handler search",
         text="Decides the state-capture clause, the no-lost-wake-up clause and that every observer of a promise's status subscribes to the pending case (Promise.allSettled / Promise.any do not: listed), and that restore re-roots what capture copied guard-less: every field of the running VM and of every trampoline frame flows into the saved "
              "state and back (caches and re-derived guards exempt by a reasoned table), and the restore re-guards what it puts "
              "back. The four fields the pinned tree lost across a suspension (this, the block-scope stack, pending finally "
              "completions of the VM and of frames) were reproduced with awaiting programs and repaired (fix: commit). Schedules, "
-             "settlement order and combinator semantics are not decided.",
+             "settlement order and combinator semantics are not decided. Also: whoever searches the current frame for an exception handler goes on to the callers' frames (an exception injected on resume is a throw at the suspension point).",
         ref="4/C07"),
 })
 
@@ -181,13 +181,13 @@ CHECKS.update({
 
 CHECKS.update({
     "C16": dict(
-        technique="static analysis: representation-invariant check at every construction site of PropertyKey::String (operand provenance through conversions, canonicaliser discovery, one level of caller provenance, reasoned identifier classes) + dominance of the JSON exporter's recursion by its visited-set test + serializer/text-substitution co-occurrence",
+        technique="static analysis: representation-invariant check at every construction site of PropertyKey::String (operand provenance through conversions, canonicaliser discovery, one level of caller provenance, reasoned identifier classes) + dominance of the JSON exporter's recursion by its visited-set test + serializer/text-substitution co-occurrence; coverage of the kinds without a JSON representation by tests in the member loop",
         text="Decides three structural clauses: PropertyKey::String never holds a canonical array index (all ~350 construction sites "
              "classified; the 12 sites that built it from dynamic text - JSON.parse, Object.groupBy, the Rust and C host APIs - "
              "were reproduced and repaired, fix: commit) and the JSON exporter refuses cycles (its recursion is dominated by the "
              "visited-set test and the set is restored); serialized JSON text is never rewritten by a structure-blind substitution. "
              "Fidelity of strings, numbers and ordering is a matter of values and is "
-             "not decided.",
+             "not decided. Also: function-, symbol- and undefined-valued members (and symbol keys) are left out, each behind a test of what the value is.",
         ref="4/C16"),
 })
 
@@ -244,7 +244,7 @@ CHECKS.update({
 
 CHECKS.update({
     "C04": dict(
-        technique="static analysis: loop-membership and dominance rules on the constructor compiler (parameter-property stores vs. the parameter loop and "
+        technique="static analysis: loop-membership and dominance rules on the constructor compiler (parameter-property stores vs. the parameter loop and ; loop co-location of namespace publication with body compilation, sibling rule between the two constructor compilers"
                   "the field initialisers), belief agreement over ast::Expression variants inside the enum lowering (per-variant edge following, "
                   "path-sensitive in the boolean temporaries of matches!/&&/||, from the switches on the member's initialiser to the reverse-mapping gate "
                   "and to the writes of the auto-increment counter), sibling agreement of the enum and namespace lowerings and of the namespace and "
@@ -257,7 +257,7 @@ CHECKS.update({
              "auto-increment counter (a contradiction between the two beliefs restarted the numbering after `A = -10` - reproduced with computed "
              "members and repaired, fix: commit); enum and namespace declarations both look up an existing binding before creating their object (the "
              "enum lowering does not: repeated enum declarations do not merge - known finding); the namespace export step handles the same declaration "
-             "kinds as the module export step.",
+             "kinds as the module export step. Also: namespace members are published in the turn of the body loop that compiles them; a derived class constructor initialises fields and parameter properties after super().",
         ref="4/C04"),
 })
 
